@@ -247,7 +247,7 @@ class Gen:
             if f["ty"].kind == "optional" and self.rnd.random() < 0.25:
                 # Optional[...] behind an annotation: still an Optional for the omission rules
                 o = f["ty"]
-                f["ty"] = Node("optional", ["ann", {}, o.lean], f"Annotated[{o.py}, 'doc']", o.kids)
+                f["ty"] = Node("optional", ["ann", {}, o.lean], f"Annotated[{o.py}, 'doc']", o.kids, tags=tuple(getattr(o, "tags", ())))
             if kind == "dataclass":
                 if self.rnd.random() < 0.3: f["alias"] = nm.upper() + "_al"
                 if not req and self.rnd.random() < 0.25: f["fbod"] = True
